@@ -122,17 +122,20 @@ def r16_2_3(ctx):
     ctx.ob("R16.2", "unprefixed-attributes-have-no-namespace", ok, "attributes are resolved only when they have a prefix")
     key, pcs = nfq.cells(ctx, TB, "::process_namespaces")
     bad = None
+    seen = set()
     for pc in nfq.feasible(pcs):
         names = nfq.names(pc)
-        try:
-            i1 = names.index("self.declare_ns")
-            i3 = names.index("self.bind_qname")
-        except ValueError:
-            bad = "declare_ns / bind_qname missing on a path"
+        d = [i for i, x in enumerate(names) if x == "self.declare_ns"]
+        a = [i for i, x in enumerate(names) if x == "self.bind_attr_qname"]
+        q = [i for i, x in enumerate(names) if x == "self.bind_qname"]
+        seen |= {x for x in names if x in ("self.declare_ns", "self.bind_attr_qname")}
+        if len(q) != 1:
+            bad = "the tag's own name is not bound exactly once on a path"
             continue
-        i2 = names.index("self.bind_attr_qname") if "self.bind_attr_qname" in names else None
-        if not (i1 < i3 and (i2 is None or i1 < i2 < i3)):
+        if any(i > j for i in d for j in a + q) or any(i > q[0] for i in a):
             bad = "order is %s" % [x for x in names if x in ("self.declare_ns", "self.bind_attr_qname", "self.bind_qname")]
+    if bad is None and seen != {"self.declare_ns", "self.bind_attr_qname"}:
+        bad = "declare_ns / bind_attr_qname are never reached"
     ctx.ob("R16.3", "declarations-before-binding", bad is None, bad or "declarations are processed first, then attribute names are bound, then the tag's own name")
 
 
